@@ -192,7 +192,7 @@ def add (e : Entry) : M FsPath := do
   if path = [] then return path
   let dir := path.dropLast
   match (← getEntry dir) with
-  | some d => if !d.dir then fail .isNotDir else
+  | some d => if !d.dir || d.link then fail .isNotDir else
     match (← getEntry path) with
     | some x =>
       if e.file && !x.file then fail .isNotFile
@@ -218,6 +218,7 @@ def mkdirM (abs : FsPath) (mode : Option Nat) : M Unit :=
 
 def symlinkM (env : Env) (link target : Str) : M FsPath := do
   let l ← absM env link
+  if (← getEntry l).isSome then fail .existsAlready else
   let tstr ← if isAbsolute target then M.pure target else do
     let d ← dirOf l
     M.pure (mash (renderP d) target)
@@ -422,7 +423,7 @@ def entriesOf (s : State) (abs : FsPath) : Outcome (Entry × Snap) :=
 
 /-! ### queries -/
 
-def isDirP (s : State) (p : FsPath) : Bool := match alLookup p s.entries with | some e => e.dir | none => false
+def isDirP (s : State) (p : FsPath) : Bool := match alLookup p s.entries with | some e => e.dir && !e.link | none => false
 
 /-- listing helpers: `is_dir` check, then the sorted traversal with the given depth window and filter -/
 def listing (env : Env) (path : Str) (maxDepth : Option Nat) (dirs files : Bool) : M (List FsPath) := do
@@ -443,7 +444,8 @@ def listing (env : Env) (path : Str) (maxDepth : Option Nat) (dirs files : Bool)
 
 def mkfileM (env : Env) (path : Str) : M FsPath := do
   let p ← absM env path
-  add (mkFileEntry p)
+  let r ← add (mkFileEntry p)
+  if (← getFile r).isNone then fail .isNotFile else return r
 
 def mkdirOp (env : Env) (path : Str) (mode : Option Nat) : M FsPath := do
   let p ← absM env path
@@ -499,7 +501,8 @@ def setCwdM (env : Env) (path : Str) : M FsPath := do
   let p ← absM env path
   match (← getEntry p) with
   | none => fail .doesNotExist
-  | some _ =>
+  | some e =>
+    if !e.dir then fail .isNotDir else
     modify fun s => { s with cwd := p }
     return p
 
@@ -541,6 +544,20 @@ def moveM (env : Env) (src dst : Str) : M Unit := do
   let d ← absM env dst
   let st ← get
   let copyInto := isDirP st d
+  -- validation before any mutation
+  let srcE ← match (← getEntry s) with
+    | some x => M.pure x
+    | none => fail .doesNotExist
+  let dstFinal := if copyInto then toPath (mash (renderP d) (baseName s)) else d
+  if dstFinal = s then return ()
+  if s.isPrefixOf dstFinal then fail .ioInvalidInput
+  let dd ← dirOf dstFinal
+  match (← getEntry dd) with
+  | some x => if x.dir && !x.link then M.pure () else fail .isNotDir
+  | none => fail .doesNotExist
+  match (← getEntry dstFinal) with
+  | some x => if x.file && !x.link && srcE.file && !srcE.link then M.pure () else fail .existsAlready
+  | none => M.pure ()
   moveLoop s d copyInto (8 * (st.entries.length + 2)) [s]
 
 /-! ### file content -/
@@ -558,6 +575,7 @@ def syncM (path : FsPath) (data : Bytes) : M Unit := do
 def openWriteM (env : Env) (path : Str) (id : Nat) : M Unit := do
   let p ← absM env path
   let _ ← add (mkFileEntry p)
+  if (← getFile p).isNone then fail .isNotFile else
   modify fun s => { s with handles := ⟨id, p, []⟩ :: s.handles }
 
 /-- `append(path)`: `_add`, handle starts from a clone of the stored bytes -/
@@ -589,6 +607,7 @@ def handleDropM (id : Nat) : M Unit := fun s =>
 def writeAllM (env : Env) (path : Str) (data : Bytes) : M Unit := do
   let p ← absM env path
   let _ ← add (mkFileEntry p)
+  if (← getFile p).isNone then fail .isNotFile else
   fun s => let (_, s') := syncM p data s; (.ok (), s')
 
 /-- `append_all`: open (clone), write, flush (`?`), drop -/
@@ -736,6 +755,7 @@ structure CopyOpts where
 
 /-- `_symlink` with already absolute link and target keys (used by `_copy`) -/
 def symlinkAbs (l t : FsPath) : M FsPath := do
+  if (← getEntry l).isSome then fail .existsAlready else
   let ldir ← dirOf l
   let rel := relative (renderP t) (renderP ldir)
   let tIsDir := match (← getEntry t) with | some x => x.dir | none => false
@@ -787,6 +807,7 @@ def copyM (env : Env) (src dst : Str) (c : CopyOpts) : M Unit := do
           let _ ← add dstE
           if !srcE.link then
             -- `_clone_file(src.path())` then `insert_file`
+            if (← getFile dstPath).isNone then fail .isNotFile
             if !srcE.file then fail .isNotFile
             match (← getFile srcE.path) with
             | some b => setFile dstPath b
